@@ -12,6 +12,16 @@ Model: lean/St4sd/Model/Ref.lean via drv-c09.  Theorems: lean/St4sd/Props/C09.le
 A *world* = (known components per stage, manifest keys, application dependencies, context stage);
 reference strings are built from a grammar (stage prefix x producer x nested file path x method), mostly out of
 the world's own vocabulary so that every classification branch is hit, plus a malformed stream.
+
+The run is ONE interpreter session (lean/St4sd/Model/RefSession.lean, theorems of section 6 of Props/C09.lean):
+  * every call goes through Impl.call, which hands the caller's persistent list / dict objects (or None / [] / a copy)
+    to the real code, and afterwards compares the live class-level tables with the constants extracted from the sources
+    and the argument objects with their value before the call;
+  * families of worlds use the same names in different roles and are evaluated interleaved;
+  * earlier calls are made again later, and in fresh interpreters (class Zygote: a child forked after importing the code
+    under test and before the first call to it; every request runs in a fork of that child);
+  * an oracle failure that does not show in a fresh interpreter is reported as `result-depends-on-earlier-calls` with the
+    (shrunk) sequence of calls that produces it.
 """
 from __future__ import annotations
 
@@ -19,20 +29,99 @@ import json
 
 METHODS_FALLBACK = ['copy', 'link', 'ref', 'copyout', 'extract', 'output', 'loopref', 'loopoutput']
 
+# parameters of every driven entry point, in call order.  A *call descriptor* is {"op": name, <param>: value...};
+# a list / known-components value may be {"$obj": name}: the persistent object `name` of the session (the same Python
+# object is handed to every call that refers to it, as a caller that keeps its folder list around does).
+OPS = {
+    "pdr": ["v"], "cpdr": ["v"], "ppr": ["r", "i"], "cppr": ["r", "i"],
+    "full": ["v", "i", "deps", "extra"], "isc": ["v", "tlf"], "compile": ["p", "f", "m", "s", "r"],
+    "expand": ["v", "ctx", "known", "tlf", "force"], "expand1": ["v", "ctx", "known", "deps", "tlf"],
+    "expandall": ["refs", "ctx", "known", "deps", "tlf"], "dref": ["v", "i"], "dri": ["v", "stage", "deps"],
+    "vrefs": ["v", "known", "implied", "tlf"], "validate": ["v", "stage", "known", "tlf", "deps"],
+    "tlf": ["keys"], "appdep": ["v"], "isvar": ["v"],
+}
+FOLDER_PARAMS = ("deps", "extra", "tlf")
+TABLES = ("special", "methods", "dr_methods", "varpat")
+
+
+def snap(a):
+    if type(a) is list:
+        return a[:]
+    if type(a) is dict:
+        return {k: (v[:] if type(v) is list else v) for k, v in a.items()}
+    return a
+
+
+def to_json_obj(a):
+    """persistent object -> JSON (known-components dictionaries get string keys)"""
+    if type(a) is dict:
+        return {str(k): list(v) for k, v in a.items()}
+    return list(a) if type(a) is list else a
+
+
+def from_json_obj(a):
+    if type(a) is dict:
+        return {int(k): list(v) for k, v in a.items()}
+    return list(a) if type(a) is list else a
+
+
+def is_ref(v):
+    return type(v) is dict and "$obj" in v
+
+
+_SRC = []
+
+
+def source_tables():
+    """the class-level tables as they are written in the sources of the tree under test (ast, no import)"""
+    if not _SRC:
+        from harness import gen_c09
+        c = gen_c09.extract()
+        _SRC.append({"special": list(c["special"]), "methods": list(c["methods"]), "dr_methods": list(c["methods"]),
+                     "varpat": c["varpat"]})
+    return {k: (list(v) if isinstance(v, list) else v) for k, v in _SRC[0].items()}
+
 
 class Impl:
-    def __init__(self):
+    """the real code.  Every entry point is reached through `call(descriptor, objects)`, which also watches (a) the
+    caller's list / dict arguments and (b) the live class-level tables for in-place changes."""
+
+    def __init__(self, src=None):
         import experiment.model.frontends.flowir as M
         import experiment.model.graph as G
         import experiment.model.errors as E
-        self.M, self.G, self.E = M, G, E
+        import experiment.model.data as D
+        import experiment.model.conf as C
+        self.M, self.G, self.E, self.D, self.C = M, G, E, D, C
         self.F = M.FlowIR
+        self.src = src or source_tables()
+        self.events = []          # in-place changes seen by call(): dicts
+        self.restore = True       # put changed tables / arguments back after reporting them
+        self.trace = None         # optional: collections.deque of (descriptor, objects, answer)
+        self.ncalls = 0
+
+    # -- live class-level state ------------------------------------------------------------
+    def tables(self):
+        return {"special": list(self.F.SpecialFolders), "methods": list(self.F.data_reference_methods),
+                "dr_methods": list(self.G.DataReference.methods), "varpat": self.F.VariablePattern}
 
     def special(self):
         return list(self.F.SpecialFolders)
 
     def methods(self):
         return list(self.F.data_reference_methods)
+
+    def _tables_ok(self):
+        F, s = self.F, self.src
+        return list(F.SpecialFolders) == s["special"] and list(F.data_reference_methods) == s["methods"] \
+            and list(self.G.DataReference.methods) == s["dr_methods"] and F.VariablePattern == s["varpat"]
+
+    def _restore_tables(self):
+        s = self.src
+        self.F.SpecialFolders = list(s["special"])
+        self.F.data_reference_methods = list(s["methods"])
+        self.G.DataReference.methods = list(s["dr_methods"])
+        self.F.VariablePattern = s["varpat"]
 
     @staticmethod
     def _guard(fn):
@@ -43,31 +132,79 @@ class Impl:
         except Exception as exc:  # noqa
             return {"other": type(exc).__name__}
 
-    def pdr(self, v):
+    # -- the generic call ------------------------------------------------------------------
+    def call(self, desc, objs=None):
+        op = desc["op"]
+        args = []
+        watched = []
+        for name in OPS[op]:
+            val = desc.get(name)
+            if is_ref(val):
+                a = objs[val["$obj"]]
+                watched.append((name, val["$obj"], a, snap(a)))
+            elif name == "known" and type(val) is dict:
+                a = {int(s): list(n) for s, n in val.items()}
+                watched.append((name, None, a, snap(a)))
+            elif type(val) is list:
+                a = list(val)
+                watched.append((name, None, a, snap(a)))
+            else:
+                a = val
+            args.append(a)
+        before = None if self._tables_ok() else self.tables()
+        out = getattr(self, "_" + op)(*args)
+        self.ncalls += 1
+        for name, oname, a, s in watched:
+            if a != s:
+                self.events.append({"kind": "arg", "param": name, "obj": oname, "call": desc, "objs": objs,
+                                    "before": to_json_obj(s), "after": to_json_obj(a)})
+                if self.restore and oname is not None:
+                    if type(a) is list:
+                        a[:] = s
+                    else:
+                        a.clear()
+                        a.update(snap(s))
+        if before is None and not self._tables_ok():
+            self.events.append({"kind": "table", "call": desc, "objs": objs, "before": dict(self.src), "after": self.tables(),
+                                "watched": {o: to_json_obj(s) for _n, o, _a, s in watched if o is not None}})
+            if self.restore:
+                self._restore_tables()
+        if self.trace is not None:
+            self.trace.append((desc, objs, out))
+        return out
+
+    # -- entry points (arguments are handed over exactly as given: None stays None) --------------------
+    def _pdr(self, v):
         return self._guard(lambda: list(self.F.ParseDataReference(v)))
 
-    def ppr(self, r, i):
+    def _cpdr(self, v):
+        return self._guard(lambda: list(self.C.ParseDataReference(v)))
+
+    def _ppr(self, r, i):
         return self._guard(lambda: list(self.F.ParseProducerReference(r, i)))
 
-    def full(self, v, i, deps, extra):
-        return self._guard(lambda: list(self.F.ParseDataReferenceFull(v, i, list(deps), list(extra))))
+    def _cppr(self, r, i):
+        return self._guard(lambda: list(self.C.ParseProducerReference(r, i)))
 
-    def isc(self, v, tlf):
-        return self._guard(lambda: self.F.is_datareference_to_component(v, list(tlf)))
+    def _full(self, v, i, deps, extra):
+        return self._guard(lambda: list(self.F.ParseDataReferenceFull(v, i, deps, extra)))
 
-    def compile(self, p, f, m, s, r=None):
+    def _isc(self, v, tlf):
+        return self._guard(lambda: self.F.is_datareference_to_component(v, tlf))
+
+    def _compile(self, p, f, m, s, r=None):
         return self._guard(lambda: self.F.compile_reference(p, f, m, s, r))
 
-    def expand(self, v, ctx, known, tlf, force):
-        k = None if known is None else {int(s): list(n) for s, n in known.items()}
-        return self._guard(lambda: self.F.expand_potential_component_reference(
-            v, ctx, k, None if tlf is None else list(tlf), force))
+    def _expand(self, v, ctx, known, tlf, force):
+        return self._guard(lambda: self.F.expand_potential_component_reference(v, ctx, known, tlf, force))
 
-    def expand1(self, v, ctx, known, deps, tlf):
-        k = None if known is None else {int(s): list(n) for s, n in known.items()}
-        return self._guard(lambda: self.F.expand_component_references([v], ctx, k, list(deps), list(tlf))[0])
+    def _expand1(self, v, ctx, known, deps, tlf):
+        return self._guard(lambda: self.F.expand_component_references([v], ctx, known, deps, tlf)[0])
 
-    def dref(self, v, i):
+    def _expandall(self, refs, ctx, known, deps, tlf):
+        return self._guard(lambda: list(self.F.expand_component_references(refs, ctx, known, deps, tlf)))
+
+    def _dref(self, v, i):
         def go():
             d = self.G.DataReference(v, i)
             pid = d.producerIdentifier
@@ -78,7 +215,24 @@ class Impl:
                     "rel": d.relativeReference, "uid": uid[2:]}
         return self._guard(go)
 
-    def tlf(self, keys):
+    def _dri(self, v, stage, deps):
+        """data.DataReferenceInfo: the in-project caller of ParseDataReferenceFull(application_dependencies=...,
+        special_folders=None) (Job.consumesPredecessorPaths -> document description of an experiment)"""
+        import re
+
+        def go():
+            try:
+                d = self.D.DataReferenceInfo(v, "file://gw/tmp/c09-instance.instance", stage, "", deps)
+            except re.error:
+                return {"skip": "re.error"}     # the producer name is pasted into a regular expression
+            pid = d._pid
+            return {"pid": None if pid is None else pid.identifier, "method": d.method}
+        return self._guard(go)
+
+    def _vrefs(self, v, known, implied, tlf):
+        return self._guard(lambda: (self.F.validate_references([v], known, implied, tlf) + [None])[0])
+
+    def _tlf(self, keys):
         def go():
             try:
                 man = self.M.Manifest({k: "/nowhere/%d:copy" % n for n, k in enumerate(keys)})
@@ -87,13 +241,13 @@ class Impl:
             return list(man.top_level_folders)
         return self._guard(go)
 
-    def appdep(self, v):
+    def _appdep(self, v):
         return self._guard(lambda: self.F.application_dependency_to_name(v))
 
-    def isvar(self, v):
+    def _isvar(self, v):
         return self._guard(lambda: bool(self.F.is_var_reference(v)))
 
-    def validate(self, v, stage, known, tlf, deps=()):
+    def _validate(self, v, stage, known, tlf, deps=None):
         """names of the components reported unknown by FlowIRConcrete.validate for a consumer `zz-consumer` of stage
         `stage` declaring reference v; known = {stage: [names]}; tlf as given to validate(); deps = the
         application-dependencies of the default platform."""
@@ -108,7 +262,7 @@ class Impl:
             if deps:
                 doc['application-dependencies'] = {'default': list(deps)}
             c = self.M.FlowIRConcrete(doc, 'default', {})
-            errs = c.validate(top_level_folders=list(tlf))
+            errs = c.validate(top_level_folders=tlf)
             unknown = []
             others = []
             for e in errs:
@@ -119,6 +273,235 @@ class Impl:
             return {"unknown": sorted(r for e in unknown for r in e.references),
                     "n_unknown": len(unknown), "others": sorted(others)}
         return self._guard(go)
+
+    # -- conveniences used by the oracle (fresh argument lists) ------------------------------------
+    def pdr(self, v):
+        return self.call({"op": "pdr", "v": v})
+
+    def full(self, v, i, deps, extra):
+        return self.call({"op": "full", "v": v, "i": i, "deps": deps, "extra": extra})
+
+    def isc(self, v, tlf):
+        return self.call({"op": "isc", "v": v, "tlf": tlf})
+
+    def compile(self, p, f, m, s, r=None):
+        return self.call({"op": "compile", "p": p, "f": f, "m": m, "s": s, "r": r})
+
+    def expand(self, v, ctx, known, tlf, force):
+        return self.call({"op": "expand", "v": v, "ctx": ctx, "known": known, "tlf": tlf, "force": force})
+
+    def expand1(self, v, ctx, known, deps, tlf):
+        return self.call({"op": "expand1", "v": v, "ctx": ctx, "known": known, "deps": deps, "tlf": tlf})
+
+    def dref(self, v, i):
+        return self.call({"op": "dref", "v": v, "i": i})
+
+    def dri(self, v, stage, deps):
+        return self.call({"op": "dri", "v": v, "stage": stage, "deps": deps})
+
+    def tlf(self, keys):
+        return self.call({"op": "tlf", "keys": keys})
+
+    def appdep(self, v):
+        return self.call({"op": "appdep", "v": v})
+
+    def isvar(self, v):
+        return self.call({"op": "isvar", "v": v})
+
+    def validate(self, v, stage, known, tlf, deps=()):
+        return self.call({"op": "validate", "v": v, "stage": stage, "known": known, "tlf": list(tlf), "deps": list(deps)})
+
+
+# ----------------------------------------------------------------------------------------
+# sessions: sequences of calls in ONE interpreter; fresh interpreters come from a zygote process
+# ----------------------------------------------------------------------------------------
+
+def exec_session(sess, src):
+    """run the calls of `sess` in order in THIS process (nothing is put back in between); JSON result"""
+    impl = Impl(src)
+    impl.restore = False
+    objs = {k: from_json_obj(v) for k, v in (sess.get("objects") or {}).items()}
+    answers = []
+    for d in sess["calls"]:
+        answers.append(impl.call(d, objs))
+    return {"answers": answers, "tables_after": impl.tables(),
+            "objects_after": {k: to_json_obj(v) for k, v in objs.items()},
+            "events": [{"kind": e["kind"], "call": e["call"], "before": e["before"], "after": e["after"],
+                        "param": e.get("param")} for e in impl.events[:20]]}
+
+
+def exec_case(case):
+    """the per-case oracle on one (string, world, variant) case in THIS process -> {"slugs": [...]}"""
+    from harness import common
+    sub = common.Ctx("C09", "quick", 0)
+    sub.driver = None
+    r2 = Run(sub)
+    tl = r2.impl.tlf(case["world"]["keys"])
+    r2.ref_checks(case["world"], case.get("kind", "malformed:replay"), case["v"], case.get("parts"), tl,
+                  case.get("variant", DEFAULT_VARIANT), fresh_check=False)
+    return {"slugs": sorted({w for w, _c, _d in sub.failures})}
+
+
+class Zygote:
+    """A child forked before the first call is made to the code under test.  Every request is executed in a fresh
+    fork of that child, i.e. in an interpreter in which nothing has been parsed yet, at the price of a fork."""
+
+    def __init__(self, src):
+        import os
+        self.src = src
+        rq_r, rq_w = os.pipe()
+        an_r, an_w = os.pipe()
+        pid = os.fork()
+        if pid == 0:
+            try:
+                os.close(rq_w)
+                os.close(an_r)
+                self._serve(os.fdopen(rq_r, "r"), os.fdopen(an_w, "w"))
+            finally:
+                os._exit(0)
+        os.close(rq_r)
+        os.close(an_w)
+        self.pid = pid
+        self.w = os.fdopen(rq_w, "w")
+        self.r = os.fdopen(an_r, "r")
+        self.forks = 0
+
+    def _serve(self, rf, wf):
+        import os
+        for line in rf:
+            r, w = os.pipe()
+            pid = os.fork()
+            if pid == 0:
+                try:
+                    os.close(r)
+                    try:
+                        rq = json.loads(line)
+                        out = json.dumps(exec_case(rq["case"]) if "case" in rq else exec_session(rq, self.src))
+                    except Exception as exc:  # noqa
+                        out = json.dumps({"crash": "%s: %s" % (type(exc).__name__, exc)})
+                    with os.fdopen(w, "w") as fh:
+                        fh.write(out)
+                finally:
+                    os._exit(0)
+            os.close(w)
+            with os.fdopen(r, "r") as fh:
+                data = fh.read()
+            os.waitpid(pid, 0)
+            wf.write((data.replace("\n", " ") or json.dumps({"crash": "no answer"})) + "\n")
+            wf.flush()
+
+    def run(self, sess):
+        self.w.write(json.dumps(sess) + "\n")
+        self.w.flush()
+        self.forks += 1
+        line = self.r.readline()
+        if not line:
+            return {"crash": "zygote died"}
+        return json.loads(line)
+
+    def close(self):
+        import os
+        try:
+            self.w.close()
+            self.r.close()
+            os.waitpid(self.pid, 0)
+        except Exception:  # noqa
+            pass
+
+
+_ZYGOTE = [None]
+
+
+def get_zygote(src):
+    if _ZYGOTE[0] is None:
+        _ZYGOTE[0] = Zygote(src)
+    return _ZYGOTE[0]
+
+
+def session_objects(calls, objs, override=None):
+    """JSON value of the persistent objects the calls refer to (override: name -> value, e.g. the value before a call)"""
+    out = {}
+    for d in calls:
+        for v in d.values():
+            if is_ref(v) and v["$obj"] not in out:
+                n = v["$obj"]
+                out[n] = to_json_obj(override[n]) if override and n in override else to_json_obj(objs[n])
+    return out
+
+
+def check_session(zy, sess, src, max_singles=30, only=None):
+    """the session oracle: (a) the class-level tables after the session are those written in the sources,
+    (b) every probed call gets in the session the answer it gets alone in a fresh interpreter.
+    -> list of (slug, detail)"""
+    res = zy.run(sess)
+    if "crash" in res:
+        return [("session-crashed", res)]
+    fails = []
+    if res["tables_after"] != src:
+        changed = [t for t in TABLES if res["tables_after"][t] != src[t]]
+        fails.append(("class-level-table-changed", {"tables": changed, "source": {t: src[t] for t in changed},
+                                                    "after_session": {t: res["tables_after"][t] for t in changed},
+                                                    "first_change": (res["events"] or [None])[0]}))
+    calls = sess["calls"]
+    probes = sess.get("probes")
+    if only == "class-level-table-changed":
+        return fails
+    if probes is None:
+        probes = list(range(len(calls)))[-max_singles:]
+    for k in probes:
+        alone = zy.run({"objects": sess.get("objects") or {}, "calls": [calls[k]]})
+        if "crash" in alone:
+            continue
+        if alone["answers"][0] != res["answers"][k]:
+            fails.append(("result-depends-on-earlier-calls",
+                          {"call": calls[k], "position": k, "answer_in_session": res["answers"][k],
+                           "answer_alone_in_fresh_interpreter": alone["answers"][0]}))
+            break
+    return fails
+
+
+SHRINK_BUDGET = [90.0]      # seconds of fresh-interpreter shrinking per process (only spent when something failed)
+
+
+def shrink_session(zy, sess, src, slug):
+    """ddmin over the calls before the probe / of the session; predicate = the same slug still fails"""
+    import time
+    from harness import common
+    calls = sess["calls"]
+    t_end = time.time() + max(0.0, SHRINK_BUDGET[0])
+    probes = sess.get("probes")
+
+    def build(prefix):
+        if probes:
+            k = probes[-1]
+            s = {"objects": sess.get("objects") or {}, "calls": list(prefix) + [calls[k]], "probes": [len(prefix)]}
+        else:
+            s = {"objects": sess.get("objects") or {}, "calls": list(prefix)}
+        used = session_objects(s["calls"], s["objects"])
+        s["objects"] = used
+        return s
+
+    def still(prefix):
+        if (not probes and not prefix) or time.time() > t_end:
+            return False
+        return any(w == slug for w, _d in check_session(zy, build(prefix), src, only=slug))
+    prefix = calls[:probes[-1]] if probes else calls
+    t0 = time.time()
+    try:
+        # the culprit is usually close to the probe: try short windows before the probe first
+        found = False
+        w = 4
+        while probes and w < len(prefix):
+            if still(prefix[-w:]):
+                prefix, found = prefix[-w:], True
+                break
+            w *= 8
+        if not found and not still(prefix):
+            return sess
+        small = common.shrink_list(prefix, still, max_steps=60)
+        return build(small)
+    finally:
+        SHRINK_BUDGET[0] -= time.time() - t0
 
 
 # ----------------------------------------------------------------------------------------
@@ -330,45 +713,256 @@ def known_json(known):
     return None if known is None else [{"s": int(s), "n": list(n)} for s, n in sorted(known.items(), key=lambda kv: int(kv[0]))]
 
 
-def plan(world, v, tlf_impl, variant):
-    """list of (relation name, model request, impl thunk name + args)"""
-    ctx, known, deps = world["ctx"], world["known"], world["deps"]
-    tlf = tlf_impl if isinstance(tlf_impl, list) else []
+MODES = ["list", "list", "list", "list", "copy", "none", "none", "empty"]
+OPT_KEYS = ("full_deps", "full_extra", "isc_tlf", "exp_tlf", "exp_known", "all_deps", "all_tlf", "all_known",
+            "dri_deps", "vrefs_tlf", "vrefs_known")
+DEFAULT_OPT = {k: "list" for k in OPT_KEYS}
+# optional folder arguments for which the documentation says Optional[List[str]]: None and [] are the same empty set
+NONE_IS_EMPTY = {"full": ("deps", "extra"), "isc": ("tlf",), "expand1": ("deps", "tlf"), "dri": ("deps",),
+                 "vrefs": ("tlf",)}
+
+
+def norm_variant(variant):
+    out = dict(DEFAULT_VARIANT)
+    out.update(variant or {})
+    opt = dict(DEFAULT_OPT)
+    if "opt" not in (variant or {}):       # replays written before the optional-argument modes existed
+        if not out.get("with_known", True):
+            opt["exp_known"] = opt["all_known"] = "none"
+        if not out.get("with_tlf", True):
+            opt["exp_tlf"] = "none"
+    opt.update((variant or {}).get("opt") or {})
+    out["opt"] = opt
+    return out
+
+
+def world_objects(wid, world, tl_impl):
+    """the persistent argument objects of a world: the caller keeps ONE list of application dependencies, ONE list of
+    top-level folders and ONE dictionary of known components and hands them to every call"""
+    tlf = tl_impl if isinstance(tl_impl, list) else []
+    return {"%s.deps" % wid: list(world["deps"]), "%s.tlf" % wid: list(tlf),
+            "%s.known" % wid: {int(s): list(n) for s, n in world["known"].items()}}
+
+
+def wid_of(objs):
+    return next(iter(objs)).split(".", 1)[0]
+
+
+def optarg(mode, objs, what):
+    """how the caller spells an optional argument: the persistent object, a fresh copy, None or an empty container"""
+    name = "%s.%s" % (wid_of(objs), what)
+    if mode == "list":
+        return {"$obj": name}
+    if mode == "copy":
+        return to_json_obj(objs[name])
+    if mode == "none":
+        return None
+    return {} if what == "known" else []
+
+
+def plan(world, v, objs, variant):
+    """list of (relation name, call descriptor)"""
+    ctx = world["ctx"]
+    opt = variant["opt"]
     idx = ctx if variant["with_index"] else None
-    kn = known if variant["with_known"] else None
-    tl_opt = (tlf + variant["extra_folders"]) if variant["with_tlf"] else None
-    return [
-        ("ParseDataReference", {"op": "pdr", "v": v}, ("pdr", (v,))),
-        ("ParseDataReferenceFull", {"op": "full", "v": v, "i": idx, "deps": deps, "extra": tlf}, ("full", (v, idx, deps, tlf))),
-        ("is_datareference_to_component", {"op": "isc", "v": v, "tlf": tlf}, ("isc", (v, tlf))),
+    tl_exp = optarg(opt["exp_tlf"], objs, "tlf")
+    if tl_exp is not None and variant["extra_folders"]:
+        tl_exp = list(objs["%s.tlf" % wid_of(objs)]) + list(variant["extra_folders"])
+    calls = [
+        ("ParseDataReference", {"op": "pdr", "v": v}),
+        ("ParseDataReferenceFull", {"op": "full", "v": v, "i": idx, "deps": optarg(opt["full_deps"], objs, "deps"),
+                                    "extra": optarg(opt["full_extra"], objs, "tlf")}),
+        ("is_datareference_to_component", {"op": "isc", "v": v, "tlf": optarg(opt["isc_tlf"], objs, "tlf")}),
         ("expand_potential_component_reference",
-         {"op": "expand", "v": v, "ctx": ctx, "known": known_json(kn), "tlf": tl_opt, "force": variant["force"]},
-         ("expand", (v, ctx, kn, tl_opt, variant["force"]))),
-        ("expand_component_references", {"op": "expand1", "v": v, "ctx": ctx, "known": known_json(kn), "deps": deps, "tlf": tlf},
-         ("expand1", (v, ctx, kn, deps, tlf))),
-        ("DataReference", {"op": "dref", "v": v, "i": idx}, ("dref", (v, idx))),
+         {"op": "expand", "v": v, "ctx": ctx, "known": optarg(opt["exp_known"], objs, "known"), "tlf": tl_exp,
+          "force": variant["force"]}),
+        ("expand_component_references",
+         {"op": "expand1", "v": v, "ctx": ctx, "known": optarg(opt["all_known"], objs, "known"),
+          "deps": optarg(opt["all_deps"], objs, "deps"), "tlf": optarg(opt["all_tlf"], objs, "tlf")}),
+        ("DataReference", {"op": "dref", "v": v, "i": idx}),
     ]
+    if variant.get("entry_points"):
+        calls.append(("conf.ParseDataReference", {"op": "cpdr", "v": v}))
+        calls.append(("data.DataReferenceInfo", {"op": "dri", "v": v, "stage": ctx,
+                                                 "deps": optarg(opt["dri_deps"], objs, "deps")}))
+        if "#" not in "".join(n for ns in world["known"].values() for n in ns):
+            calls.append(("validate_references", {"op": "vrefs", "v": v, "known": optarg(opt["vrefs_known"], objs, "known"),
+                                                  "implied": idx, "tlf": optarg(opt["vrefs_tlf"], objs, "tlf")}))
+    return calls
+
+
+def resolve_json(desc, objs):
+    """the descriptor with every {"$obj": name} replaced by the JSON value of the object"""
+    out = {}
+    for k, val in desc.items():
+        out[k] = to_json_obj(objs[val["$obj"]]) if is_ref(val) else val
+    return out
+
+
+MODEL_OP = {"cpdr": "pdr", "cppr": "ppr"}
+
+
+def model_request(desc, objs):
+    r = resolve_json(desc, objs)
+    r["op"] = MODEL_OP.get(r["op"], r["op"])
+    if "known" in r and type(r["known"]) is dict:
+        r["known"] = known_json(r["known"])
+    return r
+
+
+def spelling(val):
+    return "none" if val is None else ("empty" if val in ([], {}) else ("object" if is_ref(val) else "list"))
+
+
+def rekind(world, special, kind, v, parts):
+    """what a string generated in ANOTHER world means in `world` (same string, other name sets)"""
+    if parts is None or kind in ("abspath", "variable") or ":" not in v:
+        return kind, parts
+    st = parts["stage"]
+    body = v[len("stage%d." % st):] if st is not None else v
+    pre, m = body.rsplit(":", 1)
+    prod, sep, rest = pre.partition("/")
+    new = dict(stage=st, prod=prod, file=rest if sep else None, m=m)
+    tl, dn, _allf = world_folders(world, special)
+    if st is not None:
+        return "comp-abs", new
+    if prod in special:
+        return "folder-special", new
+    if prod in tl:
+        return "folder-manifest", new
+    if prod in dn:
+        return "folder-appdep", new
+    return "comp-rel", new
+
+
+def dep_ok(n):
+    return bool(n) and n == n.lower() and "/" not in n and not n.startswith(".")
+
+
+def gen_family(rng, special):
+    """worlds that use the SAME names in different roles: the components of the context stage of the base world are
+    application dependencies in the second, manifest folders in the third; in the fourth every name is a component and
+    there are no folders at all; in the fifth no name is known"""
+    import copy
+    base = gen_world(rng, special)
+    c = str(base["ctx"])
+    here = list(base["known"].get(c, []))
+    tl, dn, _ = world_folders(base, special)
+    tl = [x for x in tl if x not in special]
+
+    def dep_path(n):
+        ext = rng.choice([".application", ".git", ".package"])
+        head = n[:1].upper() + n[1:] if rng.random() < 0.5 else n
+        return rng.choice(["/opt/apps/", "/opt/my.apps/", ""]) + head + ext
+    w_dep = copy.deepcopy(base)
+    w_dep["deps"] = [dep_path(n) for n in here if dep_ok(n)]
+    w_dep["known"][c] = sorted(set(dn) | {n for n in here if not dep_ok(n)}) or ["c0"]
+    w_man = copy.deepcopy(base)
+    w_man["keys"] = sorted({n if rng.random() < 0.6 else n + "/sub" for n in here})
+    w_man["known"][c] = sorted(set(tl) - set(here)) or ["c0"]
+    w_all = copy.deepcopy(base)
+    w_all["keys"], w_all["deps"] = [], []
+    w_all["known"][c] = sorted(set(here) | set(tl) | set(dn))
+    w_none = copy.deepcopy(base)
+    w_none["keys"], w_none["deps"] = [], []
+    w_none["known"] = {c: ["c0"]}
+    return [base, w_dep, w_man, w_all, w_none]
 
 
 def is_err(x):
     return isinstance(x, dict) and ("err" in x or "other" in x)
 
 
+def table_probes(names, changed):
+    """calls whose answer would differ if `names` had (wrongly) become / stopped being reserved folders or methods"""
+    out = []
+    for n in names[:4]:
+        if not isinstance(n, str) or not n:
+            continue
+        for v in (n + "/out.dat:copy", n + ":ref"):
+            out.append({"op": "full", "v": v, "i": 0, "deps": None, "extra": None})
+            out.append({"op": "pdr", "v": v})
+            out.append({"op": "isc", "v": v, "tlf": None})
+            out.append({"op": "expand", "v": v, "ctx": 0, "known": {"0": [n]}, "tlf": ["some-folder"], "force": False})
+            out.append({"op": "dri", "v": v, "stage": 0, "deps": None})
+        out.append({"op": "dref", "v": "producer/out.dat:" + n, "i": 0})
+    out.append({"op": "dref", "v": "producer/out.dat:ref", "i": 0})
+    out.append({"op": "full", "v": "%(a)s/x:ref", "i": 0, "deps": None, "extra": None})
+    out.append({"op": "full", "v": "data/x:ref", "i": 0, "deps": None, "extra": None})
+    return out
+
+
+def arg_probes(obj, param, names, before):
+    """later calls of the same caller, handing over the same (changed) object"""
+    ref = {"$obj": obj}
+    out = []
+    if param == "deps":
+        names = [oracle_dep_name(n) or n for n in names]
+    for n in names[:4]:
+        if not isinstance(n, str) or not n:
+            continue
+        for v in (n + "/out.dat:copy", n + ":ref"):
+            if param in ("extra", "tlf"):
+                out.append({"op": "full", "v": v, "i": 0, "deps": None, "extra": ref})
+                out.append({"op": "isc", "v": v, "tlf": ref})
+                out.append({"op": "expand", "v": v, "ctx": 0, "known": None, "tlf": ref, "force": False})
+                out.append({"op": "expand1", "v": v, "ctx": 0, "known": None, "deps": None, "tlf": ref})
+            elif param == "deps":
+                out.append({"op": "full", "v": v, "i": 0, "deps": ref, "extra": None})
+                out.append({"op": "expand1", "v": v, "ctx": 0, "known": None, "deps": ref, "tlf": None})
+                out.append({"op": "dri", "v": v, "stage": 0, "deps": ref})
+            elif param == "known":
+                stages = sorted(before) if isinstance(before, dict) else [0]
+                for st in stages[:3] or [0]:
+                    out.append({"op": "expand", "v": v, "ctx": int(st), "known": ref, "tlf": None, "force": False})
+    return out
+
+
+RING = 50000      # calls of the session kept (descriptor, objects, answer) to rebuild the history of a failure
+
+
 class Run:
     def __init__(self, ctx):
+        import collections
         self.ctx = ctx
-        self.impl = Impl()
-        self.special = self.impl.special()
-        self.methods = self.impl.methods() or METHODS_FALLBACK
+        self.src = source_tables()
+        self.impl = Impl(self.src)           # imports the code under test, calls nothing
+        self._zy = None
+        self.fresh_checks = 0
+        self.audits = 0
+        self.impl.trace = collections.deque(maxlen=RING)
+        self.live_at_import = self.impl.tables()
+        self.special = list(self.src["special"]) or self.impl.special()
+        self.methods = list(self.src["methods"]) or METHODS_FALLBACK
         self.pending = []    # (relation, case, request, impl_out)
+        self.hist = []       # sampled (descriptor, objects, first answer)
+        self.nworld = 0
+        self.event_counts = {}
+        self.batch_start_tables = self.impl.tables()
 
+    @property
+    def zy(self):
+        if self._zy is None:
+            self._zy = get_zygote(self.src)
+        return self._zy
+
+    # -- model batches: one batch = one session of the model driver ----------------------------------
     def flush(self):
         if not self.pending:
             return
-        outs = self.ctx.model([p[2] for p in self.pending])
+        reqs = [{"op": "tables"}] + [p[2] for p in self.pending] + [{"op": "tables"}]
+        live = self.impl.tables()
+        outs = self.ctx.model(reqs)
         if outs is not None:
-            for (rel, case, _req, io), mo in zip(self.pending, outs):
+            def canon_tables(t, n):
+                return {"special": t["special"], "methods": t["methods"], "dr_methods": t["dr_methods"], "calls": n}
+            self.ctx.compare("class-level tables at the start of the session", {"session": "batch"}, outs[0],
+                             canon_tables(self.batch_start_tables, 0))
+            self.ctx.compare("class-level tables after the session", {"session": "batch", "calls": len(self.pending)},
+                             outs[-1], canon_tables(live, len(self.pending)))
+            for (rel, case, _req, io), mo in zip(self.pending, outs[1:-1]):
                 self.ctx.compare(rel, case, mo, io)
+        self.batch_start_tables = live
         self.pending = []
 
     def queue(self, rel, case, req, impl_out):
@@ -376,31 +970,310 @@ class Run:
         if len(self.pending) >= 40000:
             self.flush()
 
+    def do(self, rel, case, desc, objs, log=0.12):
+        """one call of a session: real code (watched), model request queued, sampled into the history"""
+        req = model_request(desc, objs) if objs is not None else model_request(desc, {})
+        out = self.impl.call(desc, objs)
+        if self.impl.events:
+            self.process_events()
+        if not (isinstance(out, dict) and "skip" in out):
+            self.queue(rel, case, req, out)
+        if log and self.ctx.rng.random() < log:
+            self.hist.append((desc, objs, out, self.impl.ncalls))
+        return out
+
+    # -- in-place changes of class-level tables / of the caller's arguments --------------------------
+    def process_events(self):
+        evs, self.impl.events = self.impl.events, []
+        for e in evs:
+            key = (e["kind"], e["call"]["op"], e.get("param"))
+            n = self.event_counts[key] = self.event_counts.get(key, 0) + 1
+            self.ctx.tag("in-place-change:%s:%s" % (e["kind"], e["call"]["op"]))
+            objs = e["objs"] or {}
+            if e["kind"] == "table":
+                before = dict(e.get("watched") or {})
+                sess = {"objects": session_objects([e["call"]], objs, before), "calls": [e["call"]]}
+                changed = [t for t in TABLES if e["after"][t] != e["before"][t]]
+                self.ctx.fail("class-level-table-changed", {"session": sess},
+                              {"tables": changed, "source": {t: e["before"][t] for t in changed},
+                               "after_the_call": {t: e["after"][t] for t in changed}})
+                if n > 2:
+                    continue
+                names = []
+                for t in changed:
+                    if isinstance(e["after"][t], list):
+                        names += [x for x in e["after"][t] if x not in e["before"][t]]
+                        names += [x for x in e["before"][t] if x not in e["after"][t]]
+                probes = table_probes(names, changed)
+                self.consequence(e["call"], sess["objects"], probes)
+            else:
+                if n > 2 or e["obj"] is None:
+                    continue
+                before, after = e["before"], e["after"]
+                if isinstance(before, dict):
+                    names = sorted({x for k in after for x in after[k] if x not in before.get(k, [])} |
+                                   {x for k in before for x in before[k] if x not in after.get(k, [])})
+                else:
+                    names = [x for x in after if x not in before] + [x for x in before if x not in after]
+                objects = session_objects([e["call"]], objs, {e["obj"]: from_json_obj(before)})
+                found = self.consequence(e["call"], objects, arg_probes(e["obj"], e["param"], names, before))
+                if not found:
+                    self.ctx.tag("caller-argument-changed-without-consequence")
+
+    def consequence(self, culprit, objects, probes):
+        """is there a later call whose answer differs because `culprit` ran first?  (fresh interpreters)"""
+        for p in probes[:24]:
+            sess = {"objects": dict(objects), "calls": [culprit, p], "probes": [1]}
+            for what, detail in check_session(self.zy, sess, self.src):
+                if what == "result-depends-on-earlier-calls":
+                    self.ctx.fail(what, {"session": sess}, detail)
+                    return True
+        return False
+
+    # -- the same call again, later, after unrelated calls ---------------------------------------------
+    def reevaluate(self, k):
+        """a sample of earlier calls is made again (other order, other calls in between, ambient logging level changed):
+        the answer of a call is a function of its own arguments only"""
+        import logging
+        rng = self.ctx.rng
+        if not self.hist:
+            return
+        # mostly calls whose first evaluation is still inside the retained trace (so that a failure can be rebuilt)
+        lo = 0
+        floor = self.impl.ncalls - RING // 2
+        while lo < len(self.hist) and self.hist[lo][3] < floor:
+            lo += max(1, (len(self.hist) - lo) // 16)
+        lo = min(lo, len(self.hist) - 1)
+        sample = [self.hist[rng.randrange(lo, len(self.hist)) if rng.random() < 0.8 else rng.randrange(len(self.hist))]
+                  for _ in range(k)]
+        rng.shuffle(sample)
+        lg = logging.getLogger()
+        old = lg.level
+        flip = rng.random() < 0.5
+        if flip:
+            lg.setLevel(1 if old != 1 else logging.WARNING)
+        try:
+            for desc, objs, first, _n in sample:
+                again = self.impl.call(desc, objs)
+                if self.impl.events:
+                    self.process_events()
+                self.ctx.tag("session:re-evaluated")
+                if again != first:
+                    self.history_failure(desc, objs, first, again)
+        finally:
+            if flip:
+                lg.setLevel(old)
+
+    def history_failure(self, desc, objs, first, again):
+        trace = list(self.impl.trace)
+        calls = [d for d, _o, _a in trace]
+        objects = {}
+        for d, o, _a in trace:
+            if o:
+                for k2, v2 in session_objects([d], o).items():
+                    objects.setdefault(k2, v2)
+        for k2, v2 in session_objects([desc], objs or {}).items():
+            objects.setdefault(k2, v2)
+        sess = {"objects": objects, "calls": calls + [desc], "probes": [len(calls)]}
+        detail = {"call": desc, "first_answer": first, "answer_later_in_the_same_interpreter": again}
+        small = shrink_session(self.zy, sess, self.src, "result-depends-on-earlier-calls")
+        if small is sess:
+            small = {"objects": session_objects([desc], objs or {}), "calls": [desc],
+                     "note": "not reproduced from the retained trace of the last %d calls" % len(calls)}
+        self.ctx.fail("result-depends-on-earlier-calls", {"session": small}, detail)
+
+    def cross_order(self, k, recent=None):
+        """a sample of the history (or of its most recent part) is run again in fresh interpreters, once in the original
+        order and once shuffled; every answer must be the one the main interpreter gave"""
+        rng = self.ctx.rng
+        if not self.hist:
+            return
+        lo = max(0, len(self.hist) - recent) if recent else 0
+        idx = sorted(rng.sample(range(lo, len(self.hist)), min(k, len(self.hist) - lo)))
+        entries = [self.hist[i] for i in idx]
+        objects = {}
+        for d, o, _a, _n in entries:
+            if o:
+                for k2, v2 in session_objects([d], o).items():
+                    objects.setdefault(k2, v2)
+        order2 = list(range(len(entries)))
+        rng.shuffle(order2)
+        for name, order in (("original", list(range(len(entries)))), ("shuffled", order2)):
+            sess = {"objects": objects, "calls": [entries[i][0] for i in order]}
+            res = self.zy.run(sess)
+            self.ctx.tag("session:fresh-interpreter-" + name)
+            if "crash" in res:
+                self.ctx.fail("session-crashed", {"session": {"calls": sess["calls"][:5]}}, res)
+                continue
+            if res["tables_after"] != self.src:
+                # the root cause is a call that changes a table (reported with the call when it happens in the main
+                # interpreter, where the table is put back): answers of this un-repaired session are not compared
+                ev = (res.get("events") or [{}])[0]
+                culprit = ev.get("call")
+                small = {"objects": session_objects([culprit], objects), "calls": [culprit]} if culprit else \
+                    {"objects": objects, "calls": sess["calls"][:50], "note": "first 50 calls of the session"}
+                self.ctx.fail("class-level-table-changed", {"session": small},
+                              {"order": name, "after_session": {t: res["tables_after"][t] for t in TABLES
+                                                                 if res["tables_after"][t] != self.src[t]}})
+                continue
+            bad = 0
+            for pos, i in enumerate(order):
+                if res["answers"][pos] != entries[i][2]:
+                    bad += 1
+                    if bad > 2:
+                        break
+                    d = entries[i][0]
+                    alone = self.zy.run({"objects": objects, "calls": [d]})
+                    detail = {"call": d, "answer_in_main_interpreter": entries[i][2],
+                              "answer_in_%s_order_session" % name: res["answers"][pos],
+                              "answer_alone_in_fresh_interpreter": (alone.get("answers") or [None])[0]}
+                    if "answers" in alone and alone["answers"][0] != res["answers"][pos]:
+                        s2 = {"objects": objects, "calls": sess["calls"][:pos + 1], "probes": [pos]}
+                        small = shrink_session(self.zy, s2, self.src, "result-depends-on-earlier-calls")
+                        self.ctx.fail("result-depends-on-earlier-calls", {"session": small}, detail)
+                    else:
+                        self.history_failure(d, entries[i][1], alone["answers"][0] if "answers" in alone else None,
+                                             entries[i][2])
+
+    def fresh_singles(self, k):
+        """a sample of the history, each call ALONE in its own fresh interpreter: same answer as in the main session"""
+        rng = self.ctx.rng
+        bad = 0
+        for _ in range(min(k, len(self.hist))):
+            desc, objs, out, _n = self.hist[rng.randrange(len(self.hist))]
+            alone = self.zy.run({"objects": session_objects([desc], objs or {}), "calls": [desc]})
+            self.ctx.tag("session:alone-in-fresh-interpreter")
+            if "answers" in alone and alone["answers"][0] != out:
+                bad += 1
+                if bad <= 2:
+                    self.history_failure(desc, objs, alone["answers"][0], out)
+
+    def tables_check(self, where):
+        """between batches and after the run: the live class-level tables are those written in the sources"""
+        live = self.impl.tables()
+        self.ctx.tag("tables-checked:" + where)
+        if live != self.src:
+            changed = [t for t in TABLES if live[t] != self.src[t]]
+            self.ctx.fail("class-level-table-changed", {"session": {"calls": [], "where": where}},
+                          {"tables": changed, "source": {t: self.src[t] for t in changed},
+                           "live": {t: live[t] for t in changed}})
+            self.impl._restore_tables()
+
     # -- world level ----------------------------------------------------------------------
     def world_checks(self, world):
         case = {"world": world}
-        tl = self.impl.tlf(world["keys"])
-        self.queue("Manifest.top_level_folders", case, {"op": "tlf", "keys": world["keys"]}, tl)
+        self.nworld += 1
+        tl = self.do("Manifest.top_level_folders", case, {"op": "tlf", "keys": world["keys"]}, None, log=0.05)
         if isinstance(tl, list):
             want = [first_segment(k) for k in world["keys"]]
             if tl != want:
                 self.ctx.fail("manifest-top-level-folders-not-leftmost-segment", case, {"impl": tl, "expected": want})
         for d in world["deps"]:
-            out = self.impl.appdep(d)
-            self.queue("application_dependency_to_name", {"dep": d}, {"op": "appdep", "v": d}, out)
+            out = self.do("application_dependency_to_name", {"dep": d}, {"op": "appdep", "v": d}, None, log=0.05)
             if oracle_dep_name(d) is not None and out != oracle_dep_name(d):
                 self.ctx.fail("application-dependency-name", {"dep": d}, {"impl": out, "expected": oracle_dep_name(d)})
         return tl
 
+    def list_checks(self, world, objs, refs, opt):
+        """expand_component_references on a whole list (0..n references; the first one that does not parse aborts)"""
+        case = {"world": world, "refs": refs, "opt": opt}
+        desc = {"op": "expandall", "refs": list(refs), "ctx": world["ctx"], "known": optarg(opt["all_known"], objs, "known"),
+                "deps": optarg(opt["all_deps"], objs, "deps"), "tlf": optarg(opt["all_tlf"], objs, "tlf")}
+        out = self.do("expand_component_references(list)", case, desc, objs)
+        self.ctx.tag("expandall:%d" % min(len(refs), 3))
+        if not is_err(out):
+            singles = [self.impl.call(dict(desc, op="expand1", v=r), objs) for r in refs]
+            if out != singles:
+                self.ctx.fail("expand-references-list-differs-from-elementwise", case, {"list": out, "one_by_one": singles})
+
     # -- reference level ------------------------------------------------------------------
-    def ref_checks(self, world, kind, v, parts, tl_impl, variant):
-        ctx, I = self.ctx, self.impl
+    def ref_checks(self, world, kind, v, parts, tl_impl, variant, objs=None, fresh_check=True):
+        """one case.  An oracle failure that does not show when the same case is evaluated alone in a fresh interpreter
+        is, by definition, a dependence on earlier calls: it is reported as such, with the session that produces it."""
+        ctx = self.ctx
+        if not fresh_check:
+            return self._ref_checks(world, kind, v, parts, tl_impl, variant, objs)
+        buf = []
+        orig = ctx.fail
+        ctx.fail = lambda what, case, detail=None: buf.append((what, case, detail))
+        try:
+            self._ref_checks(world, kind, v, parts, tl_impl, variant, objs)
+        finally:
+            ctx.fail = orig
+        if not buf:
+            return
+        slugs = None
+        own = [b for b in buf if "world" in b[1] and "v" in b[1]]
+        if own and self.fresh_checks < 40:
+            self.fresh_checks += 1
+            res = self.zy.run({"case": own[0][1]})
+            slugs = res.get("slugs")
+        for what, case, detail in buf:
+            if slugs is None or what in slugs or not ("world" in case and "v" in case):
+                ctx.fail(what, case, detail)
+            else:
+                ctx.tag("oracle-failure-only-after-earlier-calls")
+                found = self.audit_recent(400) if self.audits < 3 else False
+                if not found:
+                    ctx.fail("result-depends-on-earlier-calls",
+                             {"session": {"calls": [], "note": "the culprit is older than the retained trace"},
+                              "consequence": {"what": what, "case": case}},
+                             {"oracle_failure_in_this_interpreter": detail, "in_a_fresh_interpreter": "no failure"})
+
+    def audit_recent(self, n):
+        """which of the last n calls got an answer that it does not get alone in a fresh interpreter?"""
+        self.audits += 1
+        trace = list(self.impl.trace)
+        for back in range(1, min(n, len(trace)) + 1):
+            desc, objs, out = trace[-back]
+            if isinstance(out, dict) and "skip" in out:
+                continue
+            alone = self.zy.run({"objects": session_objects([desc], objs or {}), "calls": [desc]})
+            if "answers" in alone and alone["answers"][0] != out:
+                upto = trace[:len(trace) - back]
+                objects = {}
+                for d, o, _a in upto + [trace[-back]]:
+                    if o:
+                        for k2, v2 in session_objects([d], o).items():
+                            objects.setdefault(k2, v2)
+                sess = {"objects": objects, "calls": [d for d, _o, _a in upto] + [desc], "probes": [len(upto)]}
+                small = shrink_session(self.zy, sess, self.src, "result-depends-on-earlier-calls")
+                if small is sess:
+                    small = {"objects": session_objects([desc], objs or {}), "calls": [desc],
+                             "note": "not reproduced from the retained trace of the last %d calls" % len(upto)}
+                self.ctx.fail("result-depends-on-earlier-calls", {"session": small},
+                              {"call": desc, "answer_in_this_interpreter": out,
+                               "answer_alone_in_fresh_interpreter": alone["answers"][0]})
+                return True
+        return False
+
+    def _ref_checks(self, world, kind, v, parts, tl_impl, variant, objs=None):
+        ctx = self.ctx
+        variant = norm_variant(variant)
+        if objs is None:
+            objs = world_objects("w%d" % self.nworld, world, tl_impl)
         case = {"world": world, "kind": kind, "v": v, "parts": parts, "variant": variant}
-        outs = {}
-        for rel, req, (fn, args) in plan(world, v, tl_impl, variant):
-            out = getattr(I, fn)(*args)
-            outs[fn] = out
-            self.queue(rel, case, req, out)
+        outs, descs = {}, {}
+        for rel, desc in plan(world, v, objs, variant):
+            out = self.do(rel, case, desc, objs)
+            outs[desc["op"]] = out
+            descs[desc["op"]] = desc
+            for p in OPS[desc["op"]]:
+                if p in FOLDER_PARAMS or p == "known":
+                    ctx.tag("arg:%s.%s=%s" % (desc["op"], p, spelling(desc[p])))
+            if desc["op"] == "full":
+                ctx.tag("args:full(deps=%s,folders=%s)" % (spelling(desc["deps"]), spelling(desc["extra"])))
+            # None and [] spell the same (empty) name set
+            for p in NONE_IS_EMPTY.get(desc["op"], ()):
+                val = desc[p]
+                if is_ref(val):
+                    val = objs[val["$obj"]]
+                if val in (None, []) and variant.get("none_vs_empty", True):
+                    other = self.impl.call(dict(desc, **{p: ([] if val is None else None)}), objs)
+                    ctx.tag("oracle:none-vs-empty")
+                    if other != out:
+                        ctx.fail("optional-none-vs-empty-disagree", case,
+                                 {"call": resolve_json(desc, objs), "argument": p, "given": out, "other_spelling": other})
         tags = ["kind:" + kind.split(":")[0]]
         if kind.startswith("malformed"):
             tags.append(kind)
@@ -410,30 +1283,33 @@ class Run:
             tags.append("expand:" + ("rewritten" if outs["expand"] != v else "kept"))
         nontrivial = not is_err(full)
         ctx.case({"kind": kind, "v": v, "world": world, "variant": variant}, nontrivial=nontrivial, tags=tags)
-        self.oracle(case, outs, tl_impl)
+        self.oracle(case, outs, tl_impl, descs, objs)
+        if self.impl.events:
+            self.process_events()
 
-    def oracle(self, case, outs, tl_impl):
+    def oracle(self, case, outs, tl_impl, descs, objs):
         ctx, I = self.ctx, self.impl
         world, kind, v, parts, variant = case["world"], case["kind"], case["v"], case["parts"], case["variant"]
         known, cstage, deps = world["known"], world["ctx"], world["deps"]
         tlf = tl_impl if isinstance(tl_impl, list) else []
         tl_h, dn_h, allf = world_folders(world, self.special)
         idx = cstage if variant["with_index"] else None
-        kn = known if variant["with_known"] else None
-        tl_opt = (tlf + variant["extra_folders"]) if variant["with_tlf"] else None
 
-        # (2) expansion is idempotent — every string that parses, every name set
+        # (2) expansion is idempotent — every string that parses, every name set, every spelling of the optional arguments
         e1 = outs["expand"]
         if not is_err(e1):
-            e2 = I.expand(e1, cstage, kn, tl_opt, variant["force"])
+            e2 = I.call(dict(descs["expand"], v=e1), objs)
             ctx.tag("oracle:idempotent")
             if e2 != e1:
                 ctx.fail("expand-not-idempotent", case, {"once": e1, "twice": e2})
         x1 = outs["expand1"]
         if not is_err(x1):
-            x2 = I.expand1(x1, cstage, kn, deps, tlf)
+            x2 = I.call(dict(descs["expand1"], v=x1), objs)
             if x2 != x1:
                 ctx.fail("expand-references-not-idempotent", case, {"once": x1, "twice": x2})
+        # other entry points reach the same parser: conf.ParseDataReference is FlowIR.ParseDataReference
+        if "cpdr" in outs and outs["cpdr"] != outs["pdr"]:
+            ctx.fail("conf-ParseDataReference-differs", case, {"conf": outs["cpdr"], "FlowIR": outs["pdr"]})
         if parts is None:
             return
         prod, f, m, st = parts["prod"], parts["file"], parts["m"], parts["stage"]
@@ -506,6 +1382,12 @@ class Run:
             if bad:
                 ctx.fail("direct-reference-treated-as-component" + (":manifest" if kind == "folder-manifest" else ""),
                          case, {"by": bad, "full": fr, "is_component": ic, "expanded": ex, "top_level_folders": tlf})
+            if variant.get("entry_points") and kind in ("folder-special", "folder-appdep", "variable"):
+                di = I.dri(v, cstage, deps)
+                if not (isinstance(di, dict) and "skip" in di):
+                    ctx.tag("oracle:DataReferenceInfo-direct")
+                    if is_err(di) or di["pid"] is not None:
+                        ctx.fail("DataReferenceInfo-direct-reference-has-producer", case, {"info": di})
             if kind in ("folder-special", "folder-manifest", "folder-appdep") and not stage_prefixed(prod) \
                     and (variant["validate"] or (kind == "folder-manifest" and variant["validate2"])):
                 vr = I.validate(v, cstage, known, tlf, deps)
@@ -534,6 +1416,13 @@ class Run:
                         ctx.fail("known-component-reference-not-expanded", case, {"by": name, "got": got, "expected": a})
                 if I.isc(v, tlf + dn_h) is not True:
                     ctx.fail("known-component-reference-not-a-component-reference", case, {})
+                if variant.get("entry_points") and prod not in tl_h:
+                    # the in-project caller without a top-level-folder list (document descriptions)
+                    di = I.dri(v, cstage, deps)
+                    if not (isinstance(di, dict) and "skip" in di):
+                        ctx.tag("oracle:DataReferenceInfo-component")
+                        if is_err(di) or di["pid"] != "stage%d.%s" % (target, prod) or di["method"] != m:
+                            ctx.fail("DataReferenceInfo-known-component-not-the-producer", case, {"info": di})
             if "#" not in "".join(n for ns in known.values() for n in ns) and "#" not in prod and variant["validate"]:
                 vr = I.validate(v, cstage, known, tlf, deps)
                 if not is_err(vr) and vr["others"]:
@@ -556,9 +1445,10 @@ class Run:
 
 
 def gen_variant(rng, world):
-    return {"with_index": rng.random() < 0.75, "with_known": rng.random() < 0.8, "with_tlf": rng.random() < 0.8,
-            "force": rng.random() < 0.15, "validate": rng.random() < 0.12, "validate2": rng.random() < 0.4,
-            "extra_folders": [] if rng.random() < 0.5 else ["input", "data", "bin", "conf"]}
+    return {"with_index": rng.random() < 0.75, "force": rng.random() < 0.15, "validate": rng.random() < 0.12,
+            "validate2": rng.random() < 0.4, "entry_points": rng.random() < 0.5, "none_vs_empty": rng.random() < 0.6,
+            "extra_folders": [] if rng.random() < 0.5 else ["input", "data", "bin", "conf"],
+            "opt": {k: rng.choice(MODES) for k in OPT_KEYS}}
 
 
 CORPUS = [
@@ -575,7 +1465,26 @@ CORPUS = [
      "kind": "malformed:stagenx", "v": "stage01x.foo:ref", "parts": None},
 ]
 DEFAULT_VARIANT = {"with_index": True, "with_known": True, "with_tlf": True, "force": False, "validate": True, "validate2": True,
-                   "extra_folders": ["input", "data", "bin", "conf"]}
+                   "entry_points": True, "none_vs_empty": True, "extra_folders": ["input", "data", "bin", "conf"]}
+
+# a history in one interpreter: a document description is generated for a workflow that declares an application dependency
+# (DataReferenceInfo: application dependencies given, no top-level-folder list), then an unrelated workflow with a COMPONENT
+# of the same name is parsed
+CORPUS_SESSIONS = [
+    {"objects": {"a.deps": ["/opt/apps/Solver.application"], "b.known": {"0": ["solver", "consume"]}, "b.tlf": []},
+     "calls": [
+         {"op": "full", "v": "solver/out.dat:copy", "i": 0, "deps": None, "extra": None},
+         {"op": "dri", "v": "solver/bin/run.sh:ref", "stage": 0, "deps": {"$obj": "a.deps"}},
+         {"op": "full", "v": "solver/bin/run.sh:ref", "i": 0, "deps": {"$obj": "a.deps"}, "extra": None},
+         {"op": "full", "v": "solver/bin/run.sh:ref", "i": 0, "deps": {"$obj": "a.deps"}, "extra": []},
+         {"op": "expand1", "v": "solver/bin/run.sh:ref", "ctx": 0, "known": None, "deps": {"$obj": "a.deps"}, "tlf": None},
+         {"op": "full", "v": "solver/out.dat:copy", "i": 0, "deps": None, "extra": None},
+         {"op": "full", "v": "solver:ref", "i": 0, "deps": [], "extra": {"$obj": "b.tlf"}},
+         {"op": "expand", "v": "solver/out.dat:copy", "ctx": 0, "known": {"$obj": "b.known"}, "tlf": {"$obj": "b.tlf"}, "force": False},
+         {"op": "dri", "v": "solver/out.dat:copy", "stage": 0, "deps": None},
+         {"op": "dref", "v": "solver/out.dat:copy", "i": 0},
+     ]},
+]
 
 
 def classify_none(what, case, detail):
@@ -587,20 +1496,15 @@ CLASSIFIERS = {}
 
 def shrinker_for(run):
     def shrink(what, case):
-        """drop world entries that are not needed for the same failure slug"""
+        """drop world entries that are not needed for the same failure slug; sessions: drop calls (fresh interpreters)"""
+        if "session" in case:
+            return None         # sessions are shrunk (in fresh interpreters) where they are reported
         if "world" not in case or "v" not in case:
             return None
         import copy
-        from harness import common
 
         def fails(c):
-            sub = common.Ctx("C09", "quick", 0)
-            sub.driver = None
-            r2 = Run(sub)
-            tl = r2.impl.tlf(c["world"]["keys"])
-            r2.pending = []
-            r2.oracle(c, {fn: getattr(r2.impl, fn)(*args) for _rel, _rq, (fn, args) in plan(c["world"], c["v"], tl, c["variant"])}, tl)
-            return any(w == what for w, _c, _d in sub.failures)
+            return what in (run.zy.run({"case": c}).get("slugs") or [])
         best = copy.deepcopy(case)
         keep = (case.get("parts") or {}).get("prod")
         for field in ("deps", "keys"):
@@ -622,20 +1526,44 @@ def shrinker_for(run):
     return shrink
 
 
+def run_session_case(r, sess, label):
+    """a whole session as one case: fresh-interpreter oracle + model correspondence of the sequence"""
+    ctx = r.ctx
+    ctx.case({"session": label, "calls": len(sess["calls"])}, nontrivial=len(sess["calls"]) > 1, tags=["kind:session"])
+    for what, detail in check_session(r.zy, sess, r.src, max_singles=12):
+        small = sess
+        if what == "result-depends-on-earlier-calls":
+            small = shrink_session(r.zy, dict(sess, calls=sess["calls"][:detail["position"] + 1], probes=[detail["position"]]),
+                                   r.src, what)
+        elif what == "class-level-table-changed":
+            small = shrink_session(r.zy, {k: v for k, v in sess.items() if k != "probes"}, r.src, what)
+        ctx.fail(what, {"session": small}, detail)
+    objs = {k: from_json_obj(v) for k, v in (sess.get("objects") or {}).items()}
+    for d in sess["calls"]:
+        r.do("session:" + d["op"], {"session": label, "call": d}, d, objs, log=1.0)
+
+
 def run(ctx):
     ctx.rule = ("case = (reference string, world, variant); world = known components per stage (names with dots, dashes, "
                 "digits, loop prefixes), manifest keys (flat and nested), application dependencies (plain / extension / "
                 "absolute / relative / trailing slash), context stage; strings from the grammar [stageN.]producer[/nested/file]:method "
                 "over all reference methods, drawn mostly from the world's own vocabulary (9 well-formed kinds incl. reserved "
                 "folder, manifest folder, app-dep, absolute path, variable, folder/component name clash) plus a malformed "
-                "stream of 22 forms; non-trivial = the string parses (ParseDataReferenceFull does not raise); distinct by "
-                "canonical JSON of (kind, string, world, variant)")
+                "stream of 22 forms; variant = context index given or not, force, and for EVERY optional folder / dependency / "
+                "known-components argument of every driven function how the caller spells it (the caller's persistent list "
+                "object, a fresh copy, None, an empty container); 40% of the cases come from families of five worlds that use "
+                "the same names in different roles (component / application dependency / manifest folder / nothing), every "
+                "string of the family being evaluated under every world of the family in shuffled order; the whole run is ONE "
+                "interpreter session (see extra.session); non-trivial = the string parses (ParseDataReferenceFull does not "
+                "raise); distinct by canonical JSON of (kind, string, world, variant)")
     ctx.assumptions = ["generated strings are ASCII (Python's \\d and str.lower() are only modelled on ASCII)",
                        "component names never contain '/' or ':'; for the classification oracle folder names and the "
                        "names of the components of the context stage are disjoint (the clash stream is compared with the "
                        "model only)",
                        "FlowIRConcrete.validate is exercised on a two-level workflow (producers + one consumer declaring the "
-                       "reference, no arguments, no '#' names)"]
+                       "reference, no arguments, no '#' names)",
+                       "history independence is checked against interpreters forked before the first call to the code under "
+                       "test (same imports, nothing parsed yet)"]
     ctx.trusted.append("C09: os.path.split/join/splitext re-modelled structurally in Model/Ref.lean (posixSplit, pathJoin, "
                        "splitextRoot), regex prefix/search semantics of stage([0-9]+), VariablePattern and \\[(\\d+)\\] re-modelled "
                        "as list functions; pinned by the regenerated sources in Gen/C09.lean and compared on every run")
@@ -646,33 +1574,81 @@ def run(ctx):
     quick = ctx.tier == "quick"
     ctx.extra["special_folders"] = r.special
     ctx.extra["methods"] = r.methods
+    if r.live_at_import != r.src:
+        ctx.fail("class-level-table-differs-from-source-at-import", {"session": {"calls": []}},
+                 {"live": r.live_at_import, "source": r.src})
     # pure-function odds and ends compared once
     for v in ["%(a)s", "x[3]", "x[]", "[12", "a%(b)", "%()s", "%(a b)s", "plain", "%(a.b-c_d)s/x", "[0]"]:
-        r.queue("is_var_reference", {"v": v}, {"op": "isvar", "v": v}, r.impl.isvar(v))
+        r.do("is_var_reference", {"v": v}, {"op": "isvar", "v": v}, None)
+    for n, sess in enumerate(CORPUS_SESSIONS):
+        run_session_case(r, sess, "corpus-%d" % n)
     for c in CORPUS:
         c = dict(c)
         c.setdefault("variant", DEFAULT_VARIANT)
         tl = r.world_checks(c["world"])
         r.ref_checks(c["world"], c["kind"], c["v"], c["parts"], tl, c["variant"])
-    nworlds = 900 if quick else 9000
+    nworlds = 520 if quick else 4200
+    nfamilies = 80 if quick else 640
     per = 26
-    for _ in range(nworlds):
-        world = gen_world(rng, r.special)
-        tl = r.world_checks(world)
-        for _ in range(per):
-            kind, v, parts = gen_reference(rng, world, r.special, r.methods)
-            r.ref_checks(world, kind, v, parts, tl, gen_variant(rng, world))
+    per_family_world = 5
+    block = 15
+    units = ["w"] * nworlds + ["f"] * nfamilies
+    rng.shuffle(units)
+    for un, unit in enumerate(units):
+        if unit == "w":
+            world = gen_world(rng, r.special)
+            tl = r.world_checks(world)
+            objs = world_objects("w%d" % r.nworld, world, tl)
+            refs = []
+            for _ in range(per):
+                kind, v, parts = gen_reference(rng, world, r.special, r.methods)
+                refs.append(v)
+                r.ref_checks(world, kind, v, parts, tl, gen_variant(rng, world), objs)
+            if rng.random() < 0.5:
+                k = rng.choice([0, 1, 2, 3, 5])
+                r.list_checks(world, objs, rng.sample(refs, k), {k2: rng.choice(MODES) for k2 in OPT_KEYS})
+        else:
+            worlds = gen_family(rng, r.special)
+            prepared = []
+            pool = []
+            for w in worlds:
+                tl = r.world_checks(w)
+                prepared.append((w, tl, world_objects("w%d" % r.nworld, w, tl)))
+                for _ in range(per_family_world):
+                    pool.append(gen_reference(rng, w, r.special, r.methods))
+            tasks = [(wi, ri) for wi in range(len(prepared)) for ri in range(len(pool))]
+            rng.shuffle(tasks)
+            ctx.tag("family")
+            for wi, ri in tasks:
+                w, tl, objs = prepared[wi]
+                kind, v, parts = pool[ri]
+                kind2, parts2 = rekind(w, r.special, kind, v, parts)
+                r.ref_checks(w, kind2, v, parts2, tl, gen_variant(rng, w), objs)
+        if (un + 1) % block == 0:
+            r.reevaluate(120)
+            r.cross_order(300, recent=4000)
+            r.tables_check("between-batches")
+    r.reevaluate(600 if quick else 3000)
+    r.cross_order(4000 if quick else 20000)
+    r.fresh_singles(250 if quick else 1500)
+    r.tables_check("after-the-run")
     r.flush()
     ctx.extra["strings"] = ctx.evaluations
+    ctx.extra["session"] = {"calls_to_the_code": r.impl.ncalls, "history_sampled": len(r.hist), "fresh_interpreters": r.zy.forks,
+                            "source_tables": r.src}
 
 
 def replay(ctx, doc):
     case = doc.get("input") or doc["no_longer_checks"][-1]["input"]
     r = Run(ctx)
     ctx.classifiers = CLASSIFIERS
-    if "dep" in case:
-        out = r.impl.appdep(case["dep"])
-        r.queue("application_dependency_to_name", case, {"op": "appdep", "v": case["dep"]}, out)
+    if "session" in case and isinstance(case["session"], dict):
+        sess = case["session"]
+        if sess.get("calls"):
+            run_session_case(r, sess, "replay")
+        r.tables_check("replay")
+    elif "dep" in case:
+        out = r.do("application_dependency_to_name", case, {"op": "appdep", "v": case["dep"]}, None)
         if oracle_dep_name(case["dep"]) is not None and out != oracle_dep_name(case["dep"]):
             ctx.fail("application-dependency-name", case, {"impl": out})
     elif "v" in case and "world" in case:
@@ -681,4 +1657,5 @@ def replay(ctx, doc):
                      case.get("variant", DEFAULT_VARIANT))
     elif "world" in case:
         r.world_checks(case["world"])
+    r.tables_check("after-replay")
     r.flush()
